@@ -9,6 +9,7 @@ CONSTANTS
   Kinds = {"pa", "rd", "aw", "st", "sd"}
   NatKinds = {"sd"}
   Prune = TRUE
+  Plan = "free"
 INVARIANTS TypeOK CoroMode RunToSuspensionInner QueueFIFO ObservedOrder ResumeOncePerReadying NoReentrancy RoundRobin FullDrain AllDoneAtEnd
 PROPERTY FIFOStep
 CHECK_DEADLOCK FALSE
